@@ -17,7 +17,9 @@ ID = "C15"
 RULE = ("cases = generated flat designs with 1-2 derived factors (within / transition / window with width, stride, "
         "early and late start, ElseLevel), each in three variants: proper, one overlapping argument tuple, one "
         "uncovered argument tuple (the malformed tuple is chosen at random from the whole argument domain, None "
-        "arguments included). non-trivial = the variant's oracle was evaluated; distinct = (spec hash)")
+        "arguments included); class late_start_dep: a width-1 derived factor with a late explicit start and an encoded "
+        "derived factor over it that starts earlier (proper only; IterateSATGen returning [] is checked against R). "
+        "non-trivial = the variant's oracle was evaluated; distinct = (spec hash)")
 ASSUMPTIONS = ["argument domain of a window = all level tuples of its dependencies, with None where a dependency "
                "is not yet defined (docs: window start)"]
 MINIMUMS = {"quick": {"overlap_judged": 90, "hole_judged": 90, "proper_sequences_judged": 600},
